@@ -474,6 +474,8 @@ def classify(prop, scenario, message, sig=None):
     if scenario in TOKENFILE:
         if 'unexpected object' in message or ' appeared' in message:
             return None
+        if scenario == 'init_second_token':
+            return None      # the token that is being initialised is ANOTHER one: nothing may happen to the existing token
         return 'rewrite-in-place:token.object'
     if scenario.startswith('destroy') and prop == 'C09':
         return 'delete-invalidates-first' if 'disappeared' in message else None
@@ -548,7 +550,7 @@ def seq_reject(lib, p11drv, seed, idx):
                     'copy': ['3=x:%s' % L(), '0x102=x:0a0b'], 'setattr': ['3=x:%s' % L(), '0x102=x:0c0d'], 'destroy': []}[kind]
             if kind == 'create' and rng.random() < 0.4:
                 tmpl = ['0=u:0', '1=b:%d' % tok, '2=b:%d' % priv, '3=x:%s' % L(), '0x11=x:%s' % ('d5' * rng.randint(0, 50))]
-            defect = rng.choice(['badattr', 'badattr', 'badattr', 'missing', 'rosession', 'notlogged', 'mech', 'blob', 'stalehandle'])
+            defect = rng.choice(['badattr', 'badattr', 'badattr', 'missing', 'rosession', 'notlogged', 'mech', 'blob', 'stalehandle'] + (['wrongclass'] * 3 if kind == 'unwrap' else []))
             mech = {'genkey': '0x1080', 'genpair': '0x1040', 'unwrap': '0x2109', 'derive': '0x1104:sd:%s' % ('11' * 16)}.get(kind, '')
             target = rng.choice(objs)
             theblob = blob
@@ -575,6 +577,14 @@ def seq_reject(lib, p11drv, seed, idx):
                 tmpl = [t if not t.startswith('2=') else '2=b:1' for t in tmpl]
             elif defect == 'mech' and mech:
                 mech = {'genkey': '0x1080:x:0102', 'genpair': pairmech + ':x:01', 'unwrap': rng.choice(['0x2109:x:00', '0x1085']), 'derive': rng.choice(['0x1104:sd:0102', '0x1104', '0x1105:sd:00'])}[kind]
+            elif defect == 'wrongclass':
+                # the blob decrypts and unpads (it wraps a secret key) but the template asks for a private key: the content is not
+                # PKCS#8 and the call fails AFTER the new object has been set up
+                kt = rng.choice([('0', 'RSA'), ('3', 'EC'), ('1', 'DSA')])[0]
+                tmpl = ['0=u:3', '0x100=u:%s' % kt, '1=b:%d' % tok, '2=b:%d' % priv, '3=x:%s' % L()]
+                mech = rng.choice(['0x2109', '0x210a', '0x1085:x:%s' % ('00' * 16)])
+                if mech != '0x2109':
+                    theblob = p.op('wrap %s %s %s %s 600' % (s, mech, wk, objs[3])).get('out', blob)
             elif defect == 'blob' and kind == 'unwrap':
                 theblob = rng.choice([blob[:-2], blob[:16], 'ff' + blob[2:], blob + '00', '.'])
             elif defect == 'stalehandle':
